@@ -23,6 +23,7 @@ import Rooc.Proofs.BuilderHistLemmas
 import Rooc.Proofs.ComposeSolver
 import Rooc.Proofs.TextTwin
 import Rooc.Proofs.PipesLemmas
+import Rooc.Proofs.LinBridgeStatic
 import Rooc.Gen.PipeTable
 import Rooc.Proofs.ComposeSolverExamples
 import Rooc.Proofs.ComposeExamples
@@ -548,6 +549,83 @@ theorem c16_builder_solve_logic_partial {mlp : LinModel (Ext K) → MlpOutcome (
     (by rw [hsol.2, hi.keys]; exact hto) hval
   rw [this, BSolution.value, hw]
 
+/-! #### the static form: what is left to assume about a builder model is finite literals
+
+A model produced by `into_model` mentions declared variables only and every declaration is marked (`intoModel_closed_model`),
+and its assertions are stored as `lhs = 1` (`toConstraint_spec`): the static contract `LinP.StaticModel` and `AssertShape`
+hold by construction, except for the finiteness of the literals the caller wrote into the expressions. -/
+
+/-- every assertion of a builder model has the shape `lhs = 1`. -/
+theorem intoModel_assertShape {b : BModel (Ext K)} {m : Model (Ext K)} (h : intoModel b = some m) : AssertShape m := by
+  rw [intoModel_closed] at h
+  split at h
+  · simp only [Option.some.injEq] at h
+    subst h
+    intro c' hc' ha
+    obtain ⟨c, _, rfl⟩ := List.mem_map.1 hc'
+    by_cases hca : c.isAssert = true
+    · simp [renameC, hca]
+    · simp [renameC, hca] at ha
+  · cases h
+
+/-- finite literals on every side (decidable). -/
+def FinSides (m : Model (Ext K)) : Prop :=
+  FinE m.objective ∧ ∀ c ∈ m.constraints, FinE c.lhs ∧ FinE c.rhs
+
+/-- a builder model with finite literals satisfies the static contract of the pipeline theorems. -/
+theorem intoModel_static {b : BModel (Ext K)} {m : Model (Ext K)} (h : intoModel b = some m) (hf : FinSides m) :
+    StaticModel m := by
+  have hdom := (intoModel_marks_all h).1
+  have scope : ∀ x, x ∈ b.vars.map (·.1) → inScope m.domain x := by
+    intro x hx
+    obtain ⟨p, hp, rfl⟩ := List.mem_map.1 hx
+    exact ⟨{ name := p.1, ty := p.2, usage := 1 }, by rw [hdom]; exact List.mem_map.2 ⟨p, hp, rfl⟩, rfl, by simp⟩
+  rw [intoModel_closed] at h
+  split at h
+  · next hr =>
+    simp only [Option.some.injEq] at h
+    subst h
+    simp only [bInRange, Bool.and_eq_true, List.all_eq_true] at hr
+    refine ⟨fun x hx => scope x (mem_names_of_renamed hr.2 x (by rw [Rooc.Compose.vars_eq_varsOf]; exact hx)), hf.1, ?_⟩
+    intro c' hc'
+    obtain ⟨c, hc, rfl⟩ := List.mem_map.1 hc'
+    have hcr := hr.1 c hc
+    simp only [cInRange, Bool.and_eq_true, Bool.or_eq_true] at hcr
+    refine ⟨?_, ?_, (hf.2 _ hc').1, (hf.2 _ hc').2⟩
+    · intro x hx
+      have : x ∈ vars (mapVars (rename (b.vars.map (·.1))) c.lhs) := by
+        rw [Rooc.Compose.vars_eq_varsOf]; by_cases hca : c.isAssert = true <;> simpa [renameC, hca] using hx
+      exact scope x (mem_names_of_renamed hcr.1 x this)
+    · intro x hx
+      by_cases hca : c.isAssert = true
+      · simp [renameC, hca, varsOf] at hx
+      · have : x ∈ vars (mapVars (rename (b.vars.map (·.1))) c.rhs) := by
+          rw [Rooc.Compose.vars_eq_varsOf]; simpa [renameC, hca] using hx
+        exact scope x (mem_names_of_renamed (hcr.2.resolve_left hca) x this)
+  · cases h
+
+/-- **`solve_with(Auto)` end to end under the STATIC contract**: for the model of ANY call history, finite literals
+(`FinSides`, decidable), `DeclOK`, the tolerance condition and the recorded assumption `SolverSpec` about microlp suffice —
+no semantic hypothesis on the model. -/
+theorem c16_builder_solve_static_partial {mlp : LinModel (Ext K) → MlpOutcome (Ext K)} (ops : List (Op (Ext K)))
+    {m : Model (Ext K)} (hm : (run (BState.new : BState (Ext K)) ops).1.intoModel = some m)
+    {t : K} (ht : 0 ≤ t) {maxSteps : Nat} {lm : LinModel (Ext K)}
+    (h : Compile.linearize m (.fin t) maxSteps = .ok lm)
+    (hfs : FinSides m) (hok : DeclOK m.domain)
+    (ht1 : t < 1 ∨ NoIntegerVars m.domain) (hspec : SolverSpec lm (mlp lm))
+    {bs : BSolution (Ext K)}
+    (hs : (run (BState.new : BState (Ext K)) ops).1.solveWith (.fin t) maxSteps (fun lm => wrapAuto lm (mlp lm)) = .ok bs)
+    (hst : bs.solution.status = .optimal)
+    (hfin : ∀ n val, bs.solution.valueOf n = some val → ∃ k : K, val.toNum = .fin k) :
+    srcFeasible m (assignmentOf bs.solution) = true ∧
+    (∀ p ∈ (run (BState.new : BState (Ext K)) ops).1.domain, inDomain (assignmentOf bs.solution p.1) p.2 = true) ∧
+    (∀ ot oe, (run (BState.new : BState (Ext K)) ops).1.objective = some (ot, oe) → bs.eval oe = bs.value) := by
+  have hm' := hm
+  rw [history_intoModel] at hm'
+  have hsh := intoModel_assertShape hm'
+  exact c16_builder_solve_logic_partial ops hm ht h
+    (logicModel_of_compile h (intoModel_static hm' hfs) hsh hok) hsh hok ht1 hspec hs hst hfin
+
 end solveWith
 
 /-! ### 10. the staged pipe runner is function composition (`Rooc/Pipes.lean`, diffed on arbitrary pipe sequences) -/
@@ -814,6 +892,20 @@ example (t : ℚ) (ht : 0 ≤ t) :
     .min (.var "0") (by simp [ops, run, step, addVar, BState.new])
   simpa [BSolution.value, solBool] using this
 
+
+/-- the static form applies to the same history: the only thing to check about the model is that its literals are finite. -/
+example : FinSides (Compose.exBool : Model (Ext ℚ)) ∧ Rooc.LinP.AssertShape (Compose.exBool : Model (Ext ℚ)) := by
+  have i0 : idx "0" = some 0 := idx_repr 0
+  have i1 : idx "1" = some 1 := idx_repr 1
+  have hb : intoModel (BModel.mk [("x", VarType.bool), ("y", VarType.bool)]
+      [bcNew (Exp.var "0") Cmp.le (Exp.var "1") "c"] (some (OptType.min, Exp.var "0")) : BModel (Ext ℚ)) =
+      some Compose.exBool := by
+    simp [intoModel, toConstraint, bcNew, toExp, i0, i1, Compose.exBool]
+  refine ⟨⟨rfl, ?_⟩, intoModel_assertShape hb⟩
+  intro c hc
+  simp only [Compose.exBool, List.mem_cons, List.mem_nil_iff, or_false] at hc
+  subst hc
+  exact ⟨rfl, rfl⟩
 
 end examples
 
